@@ -406,16 +406,64 @@ def swap_rules(R, ctx):
 
 
 # ---------------------------------------------------------------------------------------------- R01.5
+_FLAG_CACHE = {}
+
+
+def rotate_flag_arg(ctx, e, name='rotate_rcurrent'):
+    """the described value ('True' / 'False' / other text) of the rotate flag handed to a callee that takes it either as a bool or as a
+    private two-variant enum; for the enum the variant under which the callee attempts a rename counts as True"""
+    f = ctx.f
+    cb = f.bodies.get(e[0])
+    if cb is None:
+        raise CheckError(f"callee {e[0]} not found")
+    params = cb.locals[1:cb.arg_count + 1]
+    is_enum = lambda ty: ty in f.adts and len(f.adts[ty]['variants']) == 2 and not any(v['fields'] for v in f.adts[ty]['variants'])
+    idx = next((i for i, l in enumerate(params) if l.get('name') == name and (l['ty'] == 'bool' or is_enum(l['ty']))), None)
+    if idx is None:
+        c = [i for i, l in enumerate(params) if l['ty'] == 'bool' or is_enum(l['ty'])]
+        idx = c[0] if len(c) == 1 else None
+    if idx is None or idx >= len(e[1]):
+        from engine import AnchorError
+        raise AnchorError(f"parameter {name} (bool or two-variant enum) of {e[0]} not found")
+    val = e[1][idx]
+    ty = params[idx]['ty']
+    if ty == 'bool':
+        return val
+    key = (ctx.cfg, e[0], idx)
+    if key not in _FLAG_CACHE:
+        an = [f"p{i}" for i in range(len(params))]
+        rows = FDI(f, effects=[r'^std::fs::rename$', r'FileSpec::as_pathbuf$', r'get_highest_index$', r'number_infix$'],
+                   no_inline=[r'FileSpec::as_pathbuf$', r'get_highest_index$', r'number_infix$', r'FileSpec::list_of_files$']).run(e[0], arg_names=an)
+        _FLAG_CACHE[key] = {r.get(f"variant(p{idx})") for r in rows if any(x[0] == 'std::fs::rename' for x in r.effects)} - {None}
+    rot = _FLAG_CACHE[key]
+    m = re.search(r'::(\w+)$', val)
+    if m and rot:
+        return str(m.group(1) in rot)
+    return val
+
+
 def index_table(R, ctx):
     f = ctx.f
     b = ctx.body(r'::numbers::index_for_rcurrent$')
     EFF = [r'^std::fs::rename$', r'numbers::get_highest_index$', r'FileSpec::as_pathbuf$', r'numbers::number_infix$', r'std::io::Error::kind$']
     I = FDI(f, effects=EFF, no_inline=EFF)
-    rows = I.run(b.path)
+    # parameters by type (their order, and the representation of the flag - bool or a private two-variant enum - are private matters)
+    an = []
+    for l in b.locals[1:b.arg_count + 1]:
+        ty = l['ty']
+        an.append('o_index_for_rcurrent' if re.match(r'^std::option::Option<u32>$', ty) else
+                  'rotate_rcurrent' if ty == 'bool' or (ty in f.adts and len(f.adts[ty]['variants']) == 2 and not any(v['fields'] for v in f.adts[ty]['variants'])) else 'cfg')
+    if an.count('o_index_for_rcurrent') != 1 or an.count('rotate_rcurrent') != 1:
+        raise CheckError(f"R01.5: parameters of index_for_rcurrent not recognised ({[l['ty'] for l in b.locals[1:b.arg_count + 1]]})")
+    rows = I.run(b.path, arg_names=an)
+    # the flag value that means "rotate the current file" is the one under which a rename is attempted
+    flag_of = lambda r: r.get('rotate_rcurrent') if r.get('rotate_rcurrent') is not None else r.get('variant(rotate_rcurrent)')
+    rotating = {flag_of(r) for r in rows if any(e[0] == 'std::fs::rename' for e in r.effects)}
     seen = set()
     for r in rows:
         given = r.get('variant(o_index_for_rcurrent)')
-        rot = r.get('rotate_rcurrent')
+        fv = flag_of(r)
+        rot = None if fv is None else (fv in rotating)
         ren = next((v for a, v in r.cond if a.startswith('variant(std::fs::rename#')), None)
         nf = None
         for a, v in r.cond:
